@@ -125,14 +125,14 @@ CLAIMED["C11"] = {
 # what was added to each check after the first version (kept apart so the
 # original descriptions stay readable)
 LATER = {
-    "C04": "Later additions: a sentinel step (the last form wrapped in the harness's own ignore-errors followed by a constant, symbol or call in tail position) under which no budget below the run's cost and no cancellation index may end in a value; nesting levels that pass through load-string / load-bytes with a lower bound on the admitting limit; the logical stack height swept like the physical one; a budget and a cancellation configured together.",
-    "C05": "Later additions: the host cancels an operation's context after the entry point returned; functions defined by acknowledged operations contain special operators; a bytes value belongs to the shared state and multi-element appends are refused on a middle or last element.",
-    "C08": "Later additions: lexical bindings named like special operators, macros, builtins and package functions used in operator position; the language package gains exports in mid-history (new packages start with them, existing ones keep what they have); nested loads through load-bytes.",
-    "C09": "Later additions: abbreviated, incomplete and over-full special-form syntax (near-miss forms) and the values the interpreter hands out for type names, directly, in argument-type errors and through macro expansions.",
-    "C10": "Later additions: well-formed and near-miss text for the library parsers, misspelt references with several equally near candidates, and process groups that also differ in TZ, LANG, LC_ALL, HOME and USER.",
+    "C04": "Later additions: a sentinel step (the last form wrapped in the harness's own ignore-errors followed by a constant, symbol or call in tail position) under which no budget below the run's cost and no cancellation index may end in a value; nesting levels that pass through load-string / load-bytes with a lower bound on the admitting limit; the logical stack height swept like the physical one; a budget and a cancellation configured together. Wave 6: tail loops whose call arguments recurse (non-tail) 1-90 frames deep on chosen turns, so the frame storage grows under the loop.",
+    "C05": "Later additions: the host cancels an operation's context after the entry point returned; functions defined by acknowledged operations contain special operators; a bytes value belongs to the shared state and multi-element appends are refused on a middle or last element. Wave 6: calls refused while their arguments are bound (builtins, special operators, builtin macros, lambdas, malformed keyword lists) as a source of errors.",
+    "C08": "Later additions: lexical bindings named like special operators, macros, builtins and package functions used in operator position; the language package gains exports in mid-history (new packages start with them, existing ones keep what they have); nested loads through load-bytes. Wave 6: a refused in-package (non-string documentation argument), swallowed, followed by the well-formed call for the same possibly new package.",
+    "C09": "Later additions: abbreviated, incomplete and over-full special-form syntax (near-miss forms) and the values the interpreter hands out for type names, directly, in argument-type errors and through macro expansions. Wave 6: every runtime is constructed inside its scheduled goroutine (construction fills process-wide tables too); values made by libraries (validators, type objects, durations) placed inside macro expansions (which exposed defect D8, repaired).",
+    "C10": "Later additions: well-formed and near-miss text for the library parsers, misspelt references with several equally near candidates, and process groups that also differ in TZ, LANG, LC_ALL, HOME and USER. Wave 6: a third of the forms report what the host would log for their error (message naming the refusing function, and trace) through sim:errtext; non-function values of the packages and user-defined types used where types or functions are expected; host natives that are pointers to structs full of pointers, printed, looked up through help and carried in errors.",
     "C11": "Later additions: stability of sorts under equal keys, single-argument concat, bytes appended from variables (also onto empty accumulators), and reach-in follow-ups that take an element container out of a container, change it in place and inspect both.",
-    "C15": "Later additions: a context that reports a deadline, has no Done channel and whose Err stays nil after the deadline; durations at the ends of the int64 range; time-elapsed compared with time-from.",
-    "C20": "Later additions: roots spelled relative to a working directory at or below the root (which exposed defect D7, repaired), and files that load further files, whose nested relative locations must resolve against the directory of the file containing the call (entered directly, through links, and through a function defined in another file).",
+    "C15": "Later additions: a context that reports a deadline, has no Done channel and whose Err stays nil after the deadline; durations at the ends of the int64 range; time-elapsed compared with time-from. Wave 6: the ceiling configured by assigning Runtime.MaxSleep or by re-applying the option after a looser one; a second sleep inside a handler for context-cancelled around the first.",
+    "C20": "Later additions: roots spelled relative to a working directory at or below the root (which exposed defect D7, repaired), and files that load further files, whose nested relative locations must resolve against the directory of the file containing the call (entered directly, through links, and through a function defined in another file). Wave 6: the working directory entered through a directory link inside the root that points outside it, with $PWD spelling it that way; files that load files through the fs.FS library, entered directly and from a loader file two directories down.",
 }
 for _k, _v in LATER.items():
     CLAIMED[_k]["text"] += " " + _v
